@@ -10,7 +10,11 @@
      read <bytes>                   -> ok <pkg> <props> | err read
      rt <pkg> <props> <tab>         -> ok 1 | ok 0      (hypotheses of the round trip hold?)
      rtclass <pkg> <props> <tab>    -> same (the harness oracle treats it as class only)
-     mapops <props> <ops>           -> ok <res>=<props>;...   one entry per operation *)
+     mapops <props> <ops>           -> ok <res>=<props>;...   one entry per operation
+     files <desc>|<desc>|... <tab>  -> WriteFile of each description (pkg/props) to one path, then
+                                       ReadFile: ok <pkg> <props> | err read
+     edit <desc> <ops> <tab>        -> WriteFile, then per operation ReadFile, Add/Set, WriteFile
+                                       (skipped when the operation fails); finally ReadFile *)
 From Coq Require Import String.
 From Coq Require Import List NArith Bool.
 From AV Require Import model.Proto model.Metavars.
@@ -92,6 +96,29 @@ Fixpoint run_ops (f : file) (ops : list mapop) : list (list N) :=
               (res ++ $"=" ++ print_props (f_props f')) :: run_ops f' r
   end.
 
+Definition parse_desc (s : list N) : option file :=
+  match split 47 s with
+  | [a; b] => match parse_bytes a, parse_props b with
+              | Some pkg, Some ps => Some (mkFile pkg ps)
+              | _, _ => None
+              end
+  | _ => None
+  end.
+
+(* ReadFile, apply the operation, WriteFile when it succeeded *)
+Definition edit_step (cls : N -> N) (content : list N) (o : mapop) : list N :=
+  match read_file content with
+  | Ok g =>
+      match o with
+      | OpGet _ => content
+      | OpAdd p => match file_add p g with Ok g' => write_file cls content g' | _ => content end
+      | OpSet n v => match file_set n v g with Ok g' => write_file cls content g' | _ => content end
+      end
+  | _ => content
+  end.
+
+Definition print_file (g : file) : list N := print_bytes (f_pkg g) ++ [sp] ++ print_props (f_props g).
+
 Definition in_domain (cls : N -> N) (f : file) : bool :=
   valid_names cls f && plain_docs cls f && byte_values f.
 
@@ -105,7 +132,7 @@ Definition run (line : list N) : list N :=
         end
       else if str_eqb f $"read" then
         match parse_bytes a with
-        | Some s => print_outcome (fun g => print_bytes (f_pkg g) ++ [sp] ++ print_props (f_props g)) (read_m s)
+        | Some s => print_outcome print_file (read_m s)
         | None => r_badcase
         end
       else r_badcase
@@ -115,6 +142,11 @@ Definition run (line : list N) : list N :=
         | Some s, Some t => r_ok (print_bytes (quote (lookup t) s))
         | _, _ => r_badcase
         end
+      else if str_eqb f $"files" then
+        match parse_list_sep 124 parse_desc a, parse_tab b with
+        | Some fs, Some t => print_outcome print_file (read_file (write_files (lookup t) [] fs))
+        | _, _ => r_badcase
+        end
       else if str_eqb f $"mapops" then
         match parse_props a, parse_list parse_op b with
         | Some ps, Some ops => r_ok (join $";" (run_ops (mkFile $"p" ps) ops))
@@ -122,6 +154,14 @@ Definition run (line : list N) : list N :=
         end
       else r_badcase
   | [f; a; b; c] =>
+      if str_eqb f $"edit" then
+        match parse_desc a, parse_list parse_op b, parse_tab c with
+        | Some f0, Some ops, Some t =>
+            print_outcome print_file
+              (read_file (fold_left (edit_step (lookup t)) ops (write_file (lookup t) [] f0)))
+        | _, _, _ => r_badcase
+        end
+      else
       match parse_bytes a, parse_props b, parse_tab c with
       | Some pkg, Some ps, Some t =>
           if str_eqb f $"write" then r_ok (print_bytes (write_m (lookup t) (mkFile pkg ps)))
